@@ -39,6 +39,37 @@ Theorem C05_monotone_refuted_empty_publish :
 Proof. exact monotone_refuted_empty_publish. Qed.
 Print Assumptions C05_monotone_refuted_empty_publish.
 
+(* each open finding is reachable in the sense of the characterisation below: in the state
+   before the last event of its witness the victim's callback is pending and marked
+   overtaken ([ov]), and its landing lowers the store.
+     hw-callback-reorder            : C05_monotone_refuted, C05_reorder_reachable
+                                      (both callbacks created by ECommit = non-empty flushes)
+     hw-empty-flush-publish-reorder : C05_monotone_refuted_empty_publish,
+                                      C05_empty_publish_reorder_reachable (the victim's
+                                      callback was created by EFlushBegin on an empty buffer)
+     both, and nothing else         : C05_store_lowered_only_by_callback +
+                                      C05_regress_only_when_overtaken (necessity);
+                                      C05_monotone_partial (no overlap => no regression) *)
+Theorem C05_reorder_reachable :
+  match runG (init (mkCfg 0 0 0 1)) (fun _ => false) (removelast reorder_witness) with
+  | Some (s, ov) =>
+      ov 0%nat = true /\ (exists b, s_pcs s 0%nat = PCb FromFlush b 0) /\ s_store s = 2 /\
+      (exists s', step s (ECallback 0%nat true) = Some s' /\ s_store s' = 1)
+  | None => False
+  end.
+Proof. exact reorder_reachable. Qed.
+Print Assumptions C05_reorder_reachable.
+
+Theorem C05_empty_publish_reorder_reachable :
+  match runG (init (mkCfg 0 0 0 1)) (fun _ => false) (removelast empty_publish_witness) with
+  | Some (s, ov) =>
+      ov 1%nat = true /\ (exists b, s_pcs s 1%nat = PCb FromFlush b 1) /\ s_store s = 3 /\
+      (exists s', step s (ECallback 1%nat true) = Some s' /\ s_store s' = 2)
+  | None => False
+  end.
+Proof. exact empty_publish_reorder_reachable. Qed.
+Print Assumptions C05_empty_publish_reorder_reachable.
+
 (* characterisation of BOTH findings, over every run (any concurrency, faults, crashes,
    restarts): the store value is only ever lowered by an onFlush callback, and only by one
    that was overtaken -- [ov t] says that since thread t's callback became pending (at its
